@@ -324,6 +324,11 @@ def run(rep, ctx):
     with rep.guard("R08.5"):
         from .. import symrules as _SR
         _SR.reset_covers_caches(rep, ctx.model, "R08.5")
+    rep.rule("R08.6", "sets are crystallographic orbits read over the right index space (a split orbit cannot regenerate its expressions)")
+    with rep.guard("R08.6"):
+        from .. import symrules as _SRa
+        _SRa.orbit_source(rep, M, "R08.6")
+        _SRa.index_spaces(rep, M, "R08.6")
     rep.floor("R08.1", 26000)
     rep.floor("R08.2", 1500)
     rep.floor("R08.3", 1700)
